@@ -1,5 +1,5 @@
 """Orchestration of one check run (DESIGN.md §6).  python3 stdlib only."""
-import os, sys, json, time, subprocess, hashlib, glob, re, fcntl, shutil, tempfile
+import os, sys, json, time, subprocess, hashlib, glob, re, fcntl, shutil, tempfile, struct
 
 VERIF = os.path.dirname(os.path.dirname(os.path.abspath(__file__)))
 REPO = os.environ.get('VERIF_REPO', '/repo')
@@ -211,18 +211,21 @@ def compare_segments(req_file, impl_file, model_file, soft_ulps=0, float_fields=
             if a == b: res['equal'] += 1; continue
             if b == 'bad-op': res['badop'] += 1
             sa = a.split(' | '); sb = b.split(' | '); ok = len(sa) == len(sb)
+            f32 = rq.split(' ', 1)[0].endswith('32')        # `Scalar = float` requests carry 32-bit patterns
+            conv = (lambda u: struct.unpack('<f', struct.pack('<I', u & 0xFFFFFFFF))[0]) if f32 else bits_to_float
+            tol = (6e-6 if f32 else rel_tol * 64)
             if ok:
                 for x, y in zip(sa, sb):
                     if x == y: continue
                     tx = x.split(); ty = y.split()
                     if not (tx and tx[0].startswith('rows=') and len(tx) == len(ty)): ok = False; break
-                    vals = [bits_to_float(int(t)) for t in tx if t.isdigit()]
+                    vals = [conv(int(t)) for t in tx if t.isdigit()]
                     scale = max([abs(v) for v in vals if v == v] + [0.0])
                     for p, q in zip(tx, ty):
                         if p == q: continue
                         if not (p.isdigit() and q.isdigit()): ok = False; break
-                        fp, fq = bits_to_float(int(p)), bits_to_float(int(q))
-                        if not (abs(fp - fq) <= rel_tol * 64 * scale): ok = False; break
+                        fp, fq = conv(int(p)), conv(int(q))
+                        if not (abs(fp - fq) <= tol * scale): ok = False; break
                     if not ok: break
             if ok: res['soft'] += 1
             elif len(res['hard']) < maxreport: res['hard'].append((n + 1, rq.rstrip('\n')[:2000], a[:2000], b[:2000]))
